@@ -38,7 +38,7 @@ contract(M + 'find_bidi', params=dict(self=CSSMATCH, el=NODE), returns=OPT_INT_,
 contract(M + 'match_dir', params=dict(self=CSSMATCH, el=NODE, directionality=FLAGS), returns=BOOL, requires=WF,
          assumes=['el is None or (' + _STRDIR.format('el') + " and is_str_val(attr_by_name(el, 'type', '')) and is_str_val(attr_by_name(el, 'value', '')))",
                   'el is None or is_tag(el)'],
-         ensures=['result == sem_dir(self, el, directionality)'], decreases='0 if el is None else depth(el) + 1',
+         ensures=['result == sem_dir(self, el, directionality)'], decreases='0 if el is None else depth(el) + 1', unfold=1,
          locals=dict(direction=OPT_INT_, name=OPT_STR, value=STR),
          comps={1: dict(var='node', fold='texts_from', args='', assume_elem=['node is not None'])},
          loops={1: dict(var='c', invariant=['first_strong(_seq1, _i1) == first_strong(_seq1, 0)', '_seq1 == value'])},
